@@ -335,6 +335,9 @@ def run(ck, m):
     loops8 = [x for x in body_walk(an) if isinstance(x, (ast.While, ast.For))]
     inside8 = {id(y) for lp_ in loops8 for y in ast.walk(lp_)}
     snap8 = [x for x in body_walk(an) if isinstance(x, ast.Attribute) and isinstance(x.ctx, ast.Load) and x.attr in SIZE_ATTRS and norm(x.value) in ("image", "self._image") and id(x) not in inside8]
+    # ... nor is anything *computed from the image* once for all frames (a padding computed before the loop): outside the loops no method of the image is called
+    snap8 += [x.func for x in body_walk(an) if isinstance(x, ast.Call) and isinstance(x.func, ast.Attribute) and norm(x.func.value) in ("image", "self._image") and id(x) not in inside8
+              and x.func.attr not in ("_close_image",)]
     ck.ob("R4", enclosing_stmt(snap8[0]) if snap8 else an, not snap8, f"_animate reads `{norm(snap8[0]) if snap8 else ''}` once, outside the frame loops: frames rendered after the image's size changed are then formatted "
           "(padded / aligned) according to the size at the start of the iteration - they no longer equal formatting that frame directly", stmt="_animate: size-dependent values are read per frame, not before the loops")
 
